@@ -96,3 +96,11 @@ claim("C04",
        "each accepted socket gets its own Conn, handler and channels. Timing and custom net.Conn implementations are not decided.",
   note="Trusted: go/ssa; bufio.Reader.ReadBytes contract (returns data up to and including the delimiter regardless of chunking); Go channel FIFO semantics.",
   design_ref="DESIGN.md §3 C04, §2 E3/E4")
+
+claim("C13",
+  technique="static blocking-operation discipline over go/ssa: census of channel sends/receives and goroutine bodies, loop-exit classification, deferred-cancel pairing, teardown-reaches-context rules, who-may-call table for StopWithError, lock-order graph over the VTA call graph",
+  text="Exhaustive over the source of the library packages: every channel send is a select case with the owning context's Done() (two tabled exceptions with checked premises); every loop of every goroutine body has an exit governed by cancellation, a closed channel or an error of a blocking call on a resource the close path closes; "
+       "every goroutine of a connection defers the shared cancel first and that cancel closes the socket and every scope a sender can wait on (including the initiator's handler); Run raises the stopped/disconnect event before returning; the timer goroutines test the session context after each wake-up; "
+       "the mutex acquisition order is acyclic. Necessary structural conditions for 'nothing stays blocked'; the settling time and the relative timing of cause and in-flight traffic are NOT decided.",
+  note="Trusted: go/ssa, VTA call graph (for lock order through interfaces), context/errgroup/net semantics (closing a socket fails a blocked Read/Accept), the frozen exception tables.",
+  design_ref="DESIGN.md §3 C13, §2 E3")
